@@ -111,7 +111,7 @@ def check(repo: Repo, R) -> None:
     # ---- 3 generated names unique
     rule = "C16.3-generated-names-unique"
     joins = [c for c, b in pat.find("':'.join($X)", fw.node)] + [c for c, b in pat.find("':'.join($X)", repo.func(F_FLATTEN, "FlattenedInstance.make_name").node)]
-    if len(joins) < 2:
+    if len(joins) < 1:
         raise AnalysisError(f"idiom-unknown: ':'-joined names in {F_FLATTEN}")
     g_inst = any(isinstance(n, ast.If) and "':' in" in ast.unparse(n.test).replace('"', "'") and "inst.name" in ast.unparse(n.test) and au.raises(n.body) for n in au.walk_no_nested(fw.node))
     g_sig = False
@@ -158,6 +158,11 @@ def check(repo: Repo, R) -> None:
     store = bool(child_stores)
     lp = [n for n in au.walk_no_nested(fw.node) if isinstance(n, ast.For) and ast.unparse(n.iter) == "inst.conns.items()"]
     tot = len(lp) == 1 and not any(isinstance(x, (ast.Break, ast.Continue)) for x in ast.walk(lp[0]))
+    # the map handed to a child is built for that child alone
+    inits = [st for st in au.stmts(fw.node) if isinstance(st, ast.Assign) and ast.unparse(st.targets[0]) == "new_conns"]
+    fresh = len(inits) == 1 and isinstance(inits[0].value, (ast.Dict, ast.Call)) and ast.unparse(inits[0].value) in ("{}", "dict()") and any(isinstance(l, ast.For) and ast.unparse(l.iter) == "m.instances.values()" for l in enclosing_loops(fw.node, inits[0]))
+    R.check(fresh, rule, key_of(fw, "child-map-fresh"), fw.site, f"the port map handed to an instance's target starts empty for every instance: {fresh}",
+            why="bindings made for an earlier sibling instance stay in the map: a later sibling's internal net of the same name is merged with the earlier sibling's net")
     R.check(store and tot, rule, key_of(fw, "child-map"), fw.site, f"every connection of an instance is entered in the map handed to its target under the target's port name: {store and tot}", why="some ports of a sub-module are cut off from their parent net")
     top_map = any(isinstance(n, ast.If) and ast.unparse(n.test) == "conns is None" and bool(pat.find("conns = {**m.signals, **m.ports}", n)) for n in au.walk_no_nested(fw.node))
     R.check(top_map, rule, key_of(fw, "top-map"), fw.site, f"at the top level the map is the module's own signals and ports: {top_map}", why="top-level nets are renamed or lost")
